@@ -7,7 +7,8 @@ From Coq Require Import QArith List Bool ZArith.
 From SF Require Import Base.GeomAST Base.QKernel Base.Planar Model.Boundary Model.PointOnSurface
   Proofs.Boundary_proofs Proofs.PointOnSurface_proofs
   Model.ValidateSpec Model.PosNesting Proofs.PosNesting_proofs
-  Model.BoundaryExact Proofs.BoundaryExact_proofs.
+  Model.BoundaryExact Proofs.BoundaryExact_proofs
+  Model.PosNesting2 Proofs.PosNesting2_proofs.
 Import ListNotations.
 Open Scope Q_scope.
 
@@ -292,4 +293,26 @@ Example boundary_exact_everywhere_ex :
   boundary_exact_ok (GPoly ex_holed) (boundary (GPoly ex_holed)) = true /\
   boundary_exact_ok ex_coll (boundary ex_coll) = true /\
   boundary_exact_ok (GPoly ex_holed) (GLine (zline [(0,0);(4,0);(4,4);(0,4);(0,0)]%Z)) = false.
+Proof. vm_compute. repeat split. Qed.
+
+(* ================================================================ from ogc_valid's polygon clause *)
+(* For a hole whose boundary does not meet the exterior ring (rings_apart, exact seg_seg on all
+   segment pairs) the clause shell_outside is DERIVED from ogc_valid's hole_inside: closed rings
+   that avoid each other look uniform from one another, and two rings cannot each lie inside the
+   other.  shell_outside remains an executable hypothesis only for holes that touch the exterior
+   ring.  ogc_nest_okb y = poly_def (rings of y) && forall holes h, rings_apart || shell_outside. *)
+Theorem nest_ok_from_apart_holes : forall y : polyT Q, nest_okb2 y = true -> nest_okb y = true.
+Proof. exact nest_okb2_sound. Qed.
+Print Assumptions nest_ok_from_apart_holes.
+
+Theorem pos_areal_interior_ogc : forall (y : polyT Q) (p : pt),
+  row_hyps y = true -> ogc_nest_okb y = true ->
+  point_xy (fst (point_on_area y)) = Some p ->
+  locate (GPoly y) p = Interior.
+Proof. exact pos_areal_interior_ogc_lemma. Qed.
+Print Assumptions pos_areal_interior_ogc.
+(* a hole apart from the exterior ring: poly_def alone (ex_holed); U shape: no hole at all *)
+Example pos_areal_interior_ogc_ex :
+  ogc_nest_okb ex_holed = true /\ ogc_nest_okb ex_u = true /\
+  forallb (fun h => rings_apart (hd [] (rings_of ex_holed)) h) (tl (rings_of ex_holed)) = true.
 Proof. vm_compute. repeat split. Qed.
